@@ -131,6 +131,21 @@ def tool(bdir, name):
     return os.path.join(bdir, "src", "emu", name)
 
 
+def cc_shim(bdir, src="shim.c"):
+    """Compile an LD_PRELOAD shim from /verif/drivers; returns the .so path."""
+    out = os.path.join(bdir, "verif-" + os.path.splitext(src)[0] + ".so")
+    srcp = os.path.join(DRIVERS, src)
+    if os.path.exists(out) and os.path.getmtime(out) >= os.path.getmtime(srcp):
+        return out
+    tmp = out + ".tmp%d" % os.getpid()
+    r = subprocess.run(["gcc", "-shared", "-fPIC", "-O1", "-o", tmp, srcp, "-ldl"],
+                       stdout=subprocess.PIPE, stderr=subprocess.STDOUT, text=True)
+    if r.returncode != 0:
+        raise MachineryError("shim compile failed: " + r.stdout[-2000:])
+    os.replace(tmp, out)
+    return out
+
+
 def cc_driver(bdir, src, out=None, extra=(), emu=False, variant="hooks"):
     """Compile a C driver from /verif/drivers against a build of /repo."""
     name = os.path.splitext(os.path.basename(src))[0]
